@@ -20,21 +20,23 @@ CHECKS = {'C01': {'text': 'Lean theorems about an interleaving transition system
          'technique': 'Lean 4 proof (inductive invariants + termination measure over an interleaving model) + outcome-set correspondence under a '
                       'deterministic scheduler'},
  'C02': {'text': 'Lean theorems over the forwarding model (all method names, args, kwargs, aliases, context names, any number of concurrent callers '
-                 'and arrival orders): proxy_eq_direct_partial / proxy_eq_direct (outcome of a blocking or non-blocking proxy call = outcome of the '
-                 "direct call, local and peer placement, given pickle round-trips the call's values), payload_untouched, transfer_ok, "
-                 'round_trip_restores_addresses, kwargs_and_args_preserved, stub_sends_own_name(+_gen from the AST of rpc.py, Gen/StubBinding.lean), '
-                 'unique_address_injective, issued_addresses_nodup, reply_goes_to_requester, concurrent_callers_own_outcome; decide witness '
-                 'proxy_eq_direct_false_for_pinned_params. Tie: differential testing of a direct object against local/peer proxies (simulated '
-                 'network under the deterministic scheduler; real loopback TCP in thorough) over structured random values (ints, floats incl. '
-                 'nan/inf, str incl. astral, bytes, containers, numpy arrays/scalars, named tuples, enums, dataclasses, QMI exceptions), concurrent '
-                 'callers with colliding request ids, and line-by-line replay of the tapped message-level trace on the Lean driver.',
+                 'and arrival orders): proxy_eq_direct at full strength (outcome of a blocking or non-blocking proxy call = outcome of the direct '
+                 'call, local and peer placement, with stubs and helper signature as extracted from the current source, given pickle round-trips the '
+                 "call's values), payload_untouched, transfer_ok, round_trip_restores_addresses, kwargs_and_args_preserved, "
+                 'stub_sends_own_name(+_gen), gen_helper_params_empty, unique_address_injective, issued_addresses_nodup, incoming_aliases_distinct, '
+                 'accept_keeps_routes, reply_goes_to_requester, concurrent_callers_own_outcome. Tie: differential testing of a direct object against '
+                 'local/peer proxies (simulated network under the deterministic scheduler; real loopback TCP in thorough) over structured random '
+                 'values, concurrent-caller and client-churn (connect/disconnect/reconnect) families, and line-by-line replay of the tapped '
+                 'message-level trace on the Lean driver.',
          'note': 'Value fidelity across pickle is VALIDATED DIFFERENTIALLY, NOT PROVED (theorems assume decode(encode v)=v; values plain pickle does '
-                 'not reproduce are outside the quantifier, excluded and counted). Full statement false on the pinned tree: keywords named '
-                 'context/rpc_object_address/method_name/rpc_lock_token raise TypeError at the proxy (4 known findings). rpc_timeout is treated as a '
-                 'reserved proxy keyword. Trusted: taps/value generator/equality in harness/props/_c02_*.py, stubKwargs as model of Python argument '
-                 'binding, lock state as an input (C04), framing (C06).',
-         'technique': 'Lean 4 proof (forwarding/routing model, unbounded callers) + AST translator (stub binding) + differential testing and trace '
-                      'refinement against the real code under a deterministic scheduler'},
+                 'not reproduce are outside the quantifier, excluded and counted). The keyword-name collision with the helper parameters '
+                 '(context/rpc_object_address/method_name/rpc_lock_token) found by this check was fixed in 266e9a5 (positional-only); '
+                 'gen_helper_params_empty now guards it and the former failing calls are replayed as a regression test. Reply routing between client '
+                 'connections rests on the freshness of $client_N aliases (incoming_aliases_distinct); the churn family checks it on the real code. '
+                 'rpc_timeout is a reserved proxy keyword. Trusted: taps/value generator/equality in harness/props/_c02_*.py, stubKwargs as model of '
+                 'Python argument binding, lock state as an input (C04), framing (C06), send-failure branches of _SocketManager.send_message (C01).',
+         'technique': 'Lean 4 proof (forwarding/routing model, unbounded callers) + AST translator (stub binding, helper signature) + differential '
+                      'testing and trace refinement against the real code under a deterministic scheduler'},
  'C03': {'text': 'Lean theorems over all reachable states of an interleaving model of the request path as a pipeline of FIFO stages (unboundedly '
                  'many caller threads, contexts, objects, requests; actions '
                  'start/issue/enqLocal/enqRemote/loopRun/wireDeliver/workerPop/workerFinish): fifo_pipeline (for every caller c and object o the '
@@ -87,21 +89,29 @@ CHECKS = {'C01': {'text': 'Lean theorems about an interleaving transition system
                       'correspondence of every shipped and generated class through the real dispatch path'},
  'C06': {'text': 'Lean theorems over all byte strings, segmentations, payload lists, handler/pending/connection tables (induction, no bounds) about '
                  'a branch-by-branch model of _PeerTcpConnection (_receive_data loop, _process_message, close/_clear_pending_requests, send_message, '
-                 'receive_handshake) and _SocketManager: chunking_invariance / all_segmentations / single_bytes, frame_roundtrip, '
-                 'delivers_exactly(+_any_segmentation), violation_closes + violation_delivers_nothing_more with instances for wrong marker, oversize '
-                 'length (size_limit_exact), undecodable / non-message payload, missing / wrong-direction / repeated(_partial) handshake, foreign '
-                 'source / destination; closed_is_absorbing; pending_all_failed_partial, eof_/violation_/loss_fails_pending_partial; isolation, '
-                 'send_isolation; decide-checked negation witnesses where the full statement is false. Tie: the real '
-                 'MessageRouter/_SocketManager/_PeerTcpConnection driven single-threaded through in-memory sockets; real pickled QMI messages, 19 '
-                 'fault kinds at random frame index/offset, 8 cut modes down to single bytes, random pending sets at loss, a bystander connection, '
-                 'reduced and real MAX_MESSAGE_SIZE; every recv of the real code is one op line for the Lean driver (3.2k scenarios / 120k recv '
-                 'quick) plus an independent reference oracle after every step.',
-         'note': 'Trusted: Lean kernel + 3 axioms; the fake socket/loop harness (c06_fakes.py) and its taps; pickle as token oracle; TCP FIFO and '
-                 'asyncio reader dispatch modelled; socket-manager code run single-threaded; handler behaviour is a model parameter; '
-                 'receive_handshake tied by correspondence only. 3 known findings: nameless handshake can be repeated; _clear_pending_requests '
-                 'aborts on a non-delivery exception of a handler and lets it escape.',
-         'technique': 'Lean 4 proof (induction over byte streams / frame lists) + recv-by-recv differential correspondence with the real connection '
-                      'layer over in-memory sockets + independent reference oracle'},
+                 'receive_handshake) and _SocketManager (incl. send_message failure handling): chunking_invariance / all_segmentations / '
+                 'single_bytes (feeding any segmentation = feeding the concatenation: same state, same events), frame_roundtrip, '
+                 'delivers_exactly(+_any_segmentation) (handshake ++ frames => exactly the decoded messages, in order, only the source context '
+                 'rewritten to the alias, buffer empty), violation_closes + violation_delivers_nothing_more with instances for wrong marker, '
+                 'oversize length (size_limit_exact), undecodable / non-message payload, missing / nameless / wrong-direction / repeated handshake '
+                 '(second_handshake_offends: after any accepted handshake and any error-free run), foreign source / destination; '
+                 'closed_is_absorbing; pending_all_failed (any handler behaviour: table emptied, exactly one addressed error reply per entry, in '
+                 'order), close_never_escapes, eof_/violation_/disconnect_/loss_fails_pending; isolation, isolation_events, closed_peer_is_unknown, '
+                 'send_isolation; unsendable_request_fails, unsendable_reply_replaced. Tie: the real MessageRouter/_SocketManager/_PeerTcpConnection '
+                 'driven single-threaded through in-memory sockets; real pickled QMI messages, 19 fault kinds at random frame index/offset, 8 cut '
+                 'modes down to single bytes, random pending sets at loss (violation/EOF/disconnect), handlers that refuse or raise, sends before '
+                 'the handshake / over the size limit / on a failing socket, a bystander connection, reduced and real MAX_MESSAGE_SIZE incl. a '
+                 '10,000,000-byte frame; every recv of the real code is one op line for the Lean driver (3.2k scenarios / 120k recv quick, 41k / '
+                 '1.5M thorough) and an independent reference oracle checks delivery/containment/pending/isolation after every step; search sweeps '
+                 'all cut points and fault positions.',
+         'note': 'Trusted: Lean kernel + 3 axioms; the fake socket/loop harness (c06_fakes.py) and its taps (deliver_message wrapper, log record of '
+                 '_handle_read); pickle as token oracle; TCP FIFO and asyncio reader dispatch modelled; socket-manager code run single-threaded '
+                 '(_EventDrivenThread replaced); handler behaviour is a model parameter; receive_handshake tied by correspondence only; error '
+                 'replies assumed to fit the size limit. All theorems at full strength on the repaired tree; 3 findings fixed (849271e nameless '
+                 'handshake, 6a33dc7 _clear_pending_requests handler exception x2); reverting either fix (or dc3d515) yields a VIOLATION with a '
+                 'concrete input.',
+         'technique': 'Lean 4 proof (induction over byte streams / frame lists; fuel-based frame loop with unfolding lemmas) + recv-by-recv '
+                      'differential correspondence with the real connection layer over in-memory sockets + independent reference oracle'},
  'C07': {'text': 'Lean theorems over an interleaving model of SignalManager (one micro-operation per lock section, unbounded '
                  'contexts/publishers/receivers/threads/connections): key_injective (+remote, prefix test); delivered_iff_in_snapshot(+_done): every '
                  'snapshot _deliver_local takes is delivered to exactly its members, once, labelled with its key; no_delivery_after_unsubscribe '
@@ -168,19 +178,22 @@ CHECKS = {'C01': {'text': 'Lean theorems about an interleaving transition system
          'technique': 'Lean 4 proof (generic closure lemma + per-generated-system reachable set and obligations by decide +kernel) + source->model '
                       'translator + systematic schedule sweep / trace refinement under a deterministic scheduler'},
  'C12': {'text': 'Lean theorems over all finite histories with faults at any constructor / release step / stop handler / start step (invariant WF, '
-                 'induction): name_unique, duplicate_refused, failed_ctor_no_residue, remove_no_residue, make_remove_no_residue, '
+                 'induction): name_unique, duplicate_refused, failed_ctor_no_residue (every state), remove_no_residue, make_remove_no_residue, '
                  'name_free_after_failed_ctor/remove, stop_releases_each_once (count = 1), released_at_most_once, '
-                 'stop_ends_all_threads_and_connections, call_never_hangs, stale_proxy_fails_promptly, no_restart, double_start_stop_usage_error; '
-                 'stop‖make over all schedules (stop_make_all_schedules, race_exists). False on the pinned tree, negation proved and replayed: '
-                 'failed_start_leaves_nothing_false, process_can_start_again_false (+ singleton_stuck_forever; _partial versions state what holds). '
-                 'Tie: state-refinement runs on real contexts under the deterministic scheduler and in-memory network (3.7k scenarios quick): after '
-                 'every op the object map, handler map, live managers/threads, sockets, release order and events are compared with the model; '
-                 "stop‖make outcomes must lie in the model's outcome set; independent oracle.",
-         'note': 'Trusted: Lean kernel + 3 axioms; harness (taps, detsched, simnet) and generators. Modelled not verified: OS thread teardown, '
-                 'sockets (simnet; UDP bind fault injected), name validity as input flag, SignalManager/$pubsub, non-Exception stop handlers. '
-                 'stop‖make theorems are for the $context-only population (larger populations by exhaustive exploration in the driver). Known '
-                 'findings: no roll-back in QMI_Context.start / context_singleton.start (8 signatures), stop‖make race on the unregistered handler '
-                 '(1).',
+                 'stop_ends_all_threads_and_connections, call_never_hangs, stale_proxy_fails_promptly, no_restart, double_start_stop_usage_error, '
+                 'failed_start_leaves_nothing (+ start_retry_after_failure), failed_qstart_leaves_nothing, dropped_contexts_empty, '
+                 'process_can_start_again (every process history, all start faults); stop‖make clean under all schedules (stop_make_all_schedules). '
+                 'Model tied to QMI_Context / context_singleton by state-refinement runs on real contexts under the deterministic scheduler and '
+                 'in-memory network (4.2k scenarios quick): after every op the object map, handler map, live managers/threads (scheduler and '
+                 "threading.enumerate), sockets, release order and events are compared with the model; stop‖make outcomes must lie in the model's "
+                 'outcome set; calls through proxies racing remove()/stop() (local and peer callers, line-level yields in '
+                 'RpcObjectManager.handle_message, change-point sweep) checked by the oracle.',
+         'note': 'Trusted: Lean kernel + 3 standard axioms; harness (taps, detsched, simnet) and generators. Modelled not verified: OS thread '
+                 'teardown, sockets (simnet; UDP bind fault injected), name validity as input flag, SignalManager/$pubsub, non-Exception stop '
+                 'handlers and qmi.context().stop() (the two misuses excluded from process_can_start_again). stop‖make theorems are for the '
+                 '$context-only population (larger ones by exhaustive exploration in the driver); calls racing remove/stop are explored schedules + '
+                 'oracle only. Fixed in /repo: failed-start roll-back (d5615ad, 8 former findings), handler registered under the map lock (104bb5b); '
+                 'reverting either commit is reported as a VIOLATION with a concrete input.',
          'technique': 'Lean 4 proof (inductive invariant over op histories; exhaustive kernel decide over schedules lifted to all schedules) + '
                       'refinement correspondence with the real classes under a deterministic scheduler'},
  'C13': {'text': 'Lean theorems about an executable model of QMI_Tcp/Udp/SerialTransport (read, read_until, read_until_timeout, discard_read, open, '
@@ -202,22 +215,22 @@ CHECKS = {'C01': {'text': 'Lean theorems about an interleaving transition system
                  'reported as a new violation with a concrete input.',
          'technique': 'Lean 4 proof (stream-accounting invariant by induction over fuel-recursive loop models and op lists) + op-sequence '
                       'correspondence with device-interaction traces against scripted devices'},
- 'C14': {'text': 'Lean theorems over all strings, all well-typed default dictionaries, both platforms and all tables passing EnvOk '
-                 '(Gen/TransportTables.lean regenerated from the live parser instances, constructor signatures and create_transport AST): '
-                 'escapes_classified/total_partial (only QMI_TransportDescriptorException escapes outside four exactly named input classes), '
-                 'total_false + six decide witnesses (full totality is false on the pinned tree), '
-                 'faithful/defaults_only_fill/defaults_fill_absent/foreign_defaults_dropped/create_faithful (every attribute = typed token, else '
-                 'default, else ctor default), roundtrip_usbtmc/tcp/udp/vxi11, hex_id_roundtrip, decimal_roundtrip. Model tied to qmi.core.transport '
-                 'by differential runs (120k create_transport cases quick: grammar-valid, one mutation, arbitrary; × random defaults × platform; '
-                 'plus parse_parameter_strings, _parse_parts, int/float/host/inet_pton/_format_resources streams) and an independent property oracle '
-                 'incl. list->parse round trips.',
-         'note': "Known findings (11 signatures): ValueError on 'k=v=w', ValueError on NUL host, IndexError on empty default host, TypeError for "
-                 "serial without baudrate / usbtmc without ids / udp with connect_timeout, USB serials containing ':' or '=' do not round-trip. "
-                 'Trusted: regex/int()/float()/inet_pton re-implementations and the __init__/_validate_* bodies are hand-modelled and checked only '
-                 "differentially; gethostbyname('localhost') pinned; lone-surrogate strings and ill-typed defaults out of scope; pyvisa stubbed, "
-                 'transports never opened.',
-         'technique': 'Lean 4 proof (generic over regenerated tables; decide witnesses; symbolic round-trip proofs) + translator + differential '
-                      'correspondence with near-miss generator + direct oracle'},
+ 'C14': {'text': 'Lean theorems, generic over all parser tables passing the decidable checks EnvOk/AllAligned (Gen regenerated from the live parser '
+                 'instances, constructor signatures and create_transport AST; both checks re-decided on it every run), all strings, all well-typed '
+                 'default dictionaries, both platforms: total (FULL strength: a transport or QMI_TransportDescriptorException, nothing else), '
+                 'escapes_classified, faithful/defaults_only_fill/defaults_fill_absent/foreign_defaults_dropped/create_faithful (every attribute = '
+                 'typed token, else caller default, else ctor default), roundtrip_usbtmc/tcp/udp/vxi11, hex_id_roundtrip, decimal_roundtrip. Model '
+                 'tied to qmi.core.transport by differential runs (120k create_transport cases quick: grammar-valid, one mutation, arbitrary; x '
+                 'random defaults x platform; parse_parameter_strings, _parse_parts, int/float/host/inet_pton/_format_resources streams; 5k call '
+                 'histories sharing ONE defaults object, as dict or read-only Mapping) and an independent property oracle incl. list->parse round '
+                 "trips and 'caller's defaults unchanged'.",
+         'note': 'Six defects found by this check were repaired in /repo (c763390, 794f5cc, d053f6d, 4a3416c, 8caa6aa, 72eceb6; each revert is '
+                 "re-detected with a concrete input). Still known: USB serial numbers containing ':' are listed as descriptors that do not parse "
+                 'back (needs a grammar extension). Trusted: regex/int()/float()/inet_pton re-implementations and the __init__/_validate_* bodies '
+                 "are hand-modelled and checked only differentially; gethostbyname('localhost') pinned; lone-surrogate strings and ill-typed "
+                 'defaults out of scope; pyvisa stubbed, transports never opened.',
+         'technique': 'Lean 4 proof (generic over regenerated tables, decidable table checks by decide, symbolic round-trip proofs) + translator + '
+                      'differential correspondence with near-miss and call-history generators + direct oracle'},
  'C15': {'text': 'Composite of part A (SCPI, USBTMC; Props/C15.lean, 27 theorems) and part B (Interbus, APT, T2; Props/C15B.lean, 55 theorems), all '
                  'over unbounded payloads/lengths/splits, no _partial. A: scpi_ask_roundtrip, scpi_missing_terminator_errors, scpi_ask_sound, '
                  'readBinary_roundtrip/encodeBlock (1..9 digits), bad hash/digit count/length/tail => QMI_InstrumentException, '
